@@ -203,6 +203,7 @@ func (res *CampaignResult) Finish(c *core.Ctx, level string, cov map[string]any,
 	if _, ok := cov["exhaustive"]; !ok {
 		cov["exhaustive"] = false
 	}
+	writeSummary(c, res)
 	if res.ReplayPath != "" {
 		c.WriteEvidence(level, cov, assumptions, res.Violations)
 		fmt.Printf("VIOLATION property=%s replay=%s\n", c.Prop, res.ReplayPath)
@@ -218,6 +219,21 @@ func (res *CampaignResult) Finish(c *core.Ctx, level string, cov map[string]any,
 	fmt.Printf("%s %s: %d cases, %d evaluations, %d distinct non-trivial, %d schedules, %d suppressed known, %d unreproduced — %s\n",
 		c.Prop, c.Tier, res.Cases, res.Evals, len(res.Distinct), len(res.Scheds), res.Suppressed, res.Unrepro, summary)
 	return rc
+}
+
+// writeSummary dumps what a run explored in a canonical form (selftest: two runs with different
+// worker counts / GOMAXPROCS must produce identical summaries).
+func writeSummary(c *core.Ctx, res *CampaignResult) {
+	p := os.Getenv("VERIF_SUMMARY")
+	if p == "" {
+		return
+	}
+	tags := res.Tags.Map()
+	delete(tags, "budget-ended-early")
+	sum := map[string]any{"property": c.Prop, "seed": c.Seed, "cases": res.Cases, "tags": tags, "distinct": core.HashStr(sortedSet(res.Distinct)...), "n_distinct": len(res.Distinct),
+		"schedules": core.HashStr(sortedSet(res.Scheds)...), "violation": res.ReplayPath != "", "suppressed": res.Suppressed, "unreproduced": res.Unrepro, "discarded": res.Discarded}
+	b, _ := json.MarshalIndent(sum, "", " ")
+	os.WriteFile(p, b, 0o644)
 }
 
 func tailStr(s string, n int) string {
